@@ -113,7 +113,7 @@ template<class U, class T, size_t N> static void runtime_pairs(const char* Ty, c
     emit<T>(Ty, tab[i].n, tab[j].n, "run", affine, acc, 0);
   }
 }
-template<class U, U a, U b, class T> static void static_pair(const char* Ty, const char* an, const char* bn, uint64_t seed, int per){
+template<class U, U a, U b, class T, bool SEQ> static void static_pair(const char* Ty, const char* an, const char* bn, uint64_t seed, int per){
   auto ia = MAGS.find(std::string(Ty)+"/"+an), ib = MAGS.find(std::string(Ty)+"/"+bn);
   if(ia==MAGS.end()||ib==MAGS.end()) return;
   const Mag& A=ia->second; const Mag& B=ib->second; bool affine=A.has_off||B.has_off;
@@ -123,7 +123,7 @@ template<class U, U a, U b, class T> static void static_pair(const char* Ty, con
   for(T x: vs){ T y = ConvertStatically<U,a,b,T>(x); ys.push_back(y); score(acc,x,y,A,B);
     T r = Convert(x,a,b); double d = ulps_between(y,r); if(d>vs_rt) vs_rt=d;
     if(!affine){ T z = ConvertStatically<U,a,b,T>(-x); if(!(z==-y)) acc.sym=0; } }
-  static_sequences<U,a,b,T>(acc, vs, ys);
+  if constexpr (SEQ) static_sequences<U,a,b,T>(acc, vs, ys); else { acc.seq_n = -1; }
   emit<T>(Ty, an, bn, "static", affine, acc, vs_rt);
 }
 '''
@@ -148,16 +148,16 @@ def sources(units, thorough=False, nparts=12):
             names = u['names']
             n = len(names)
             pairs = set()
+            std = u.get('std_scanned') or names[0]
+            for i, a in enumerate(names):
+                pairs.add((a, std))
+                pairs.add((std, a))
+                pairs.add((a, names[(i + 1) % n]))
+            seqpairs = set(pairs)        # the sequence overloads are instantiated for these (every unit to / from standard and to its successor)
             if thorough:
                 pairs = {(a, b) for a in names for b in names}
-            else:
-                std = u.get('std_scanned') or names[0]
-                for i, a in enumerate(names):
-                    pairs.add((a, std))
-                    pairs.add((std, a))
-                    pairs.add((a, names[(i + 1) % n]))
             for a, b in sorted(pairs):
-                out.append('  static_pair<Unit::%s, Unit::%s::%s, Unit::%s::%s, T>("%s","%s","%s",seed,per);' % (T, T, a, T, b, T, a, b))
+                out.append('  static_pair<Unit::%s, Unit::%s::%s, Unit::%s::%s, T, %s>("%s","%s","%s",seed,per);' % (T, T, a, T, b, 'true' if (a, b) in seqpairs else 'false', T, a, b))
         out.append('}')
         out.append('void cpart_%d(int mode, uint64_t seed, int per, const char* mags){ load_mags(mags); part_T_%d<float>(mode,seed,per); part_T_%d<double>(mode,seed,per); part_T_%d<long double>(mode,seed,per); }' % (k, k, k, k))
         parts.append(('conv_part%d%s.cpp' % (k, 't' if thorough else 'q'), '\n'.join(out) + '\n'))
